@@ -1630,20 +1630,26 @@ class TextQueryBackend(Backend):
             else:
                 joiner = self.token_separator + self.or_token + self.token_separator
 
+            converted_args = [
+                (
+                    self.convert_condition(arg, state)
+                    if self.compare_precedence(cond, arg)
+                    else self.convert_condition_group(arg, state)
+                )
+                for arg in cond.args
+            ]
             args = [
                 converted
-                for converted in (
-                    (
-                        self.convert_condition(arg, state)
-                        if self.compare_precedence(cond, arg)
-                        else self.convert_condition_group(arg, state)
-                    )
-                    for arg in cond.args
-                )
+                for converted in converted_args
                 if converted is not None and not isinstance(converted, DeferredQueryExpression)
             ]
 
             if len(args) == 0:
+                # If all parts were deferred, pass a deferred expression to the parent as it's
+                # done for a single deferred part. Else the condition wouldn't result in a query.
+                for converted in converted_args:
+                    if isinstance(converted, DeferredQueryExpression):
+                        return converted
                 return self.empty_or_expression
             else:
                 return joiner.join(args)
@@ -1699,20 +1705,26 @@ class TextQueryBackend(Backend):
             else:
                 joiner = self.token_separator + self.and_token + self.token_separator
 
+            converted_args = [
+                (
+                    self.convert_condition(arg, state)
+                    if self.compare_precedence(cond, arg)
+                    else self.convert_condition_group(arg, state)
+                )
+                for arg in cond.args
+            ]
             args = [
                 converted
-                for converted in (
-                    (
-                        self.convert_condition(arg, state)
-                        if self.compare_precedence(cond, arg)
-                        else self.convert_condition_group(arg, state)
-                    )
-                    for arg in cond.args
-                )
+                for converted in converted_args
                 if converted is not None and not isinstance(converted, DeferredQueryExpression)
             ]
 
             if len(args) == 0:
+                # If all parts were deferred, pass a deferred expression to the parent as it's
+                # done for a single deferred part. Else the condition wouldn't result in a query.
+                for converted in converted_args:
+                    if isinstance(converted, DeferredQueryExpression):
+                        return converted
                 return self.empty_and_expression
             else:
                 return joiner.join(args)
